@@ -14,6 +14,7 @@ LEVEL = "model_checking"
 BUDGET = {"quick": 300, "thorough": 2400}
 
 REGION = [
+    "secsgem.secsi.protocol:SecsIProtocol._on_connection_message_received",
     "secsgem.common.protocol:Protocol.get_next_system_counter",
     "secsgem.common.protocol:Protocol.send_and_waitfor_response",
     "secsgem.common.protocol:Protocol._get_queue_for_system",
@@ -156,6 +157,113 @@ def driver_factory(cfg):
     return driver
 
 
+def driver_secsi_factory(cfg):
+    """The same property on the SECS-I transport: two real SecsIProtocol objects on a virtual line; the host side has
+    concurrent requesters, the equipment side answers from its dispatcher thread (order chosen by the explorer) and sends
+    unsolicited primaries."""
+    ncallers = cfg.get("callers", 2)
+    nunsol = cfg.get("unsolicited", 2)
+
+    def driver(s):
+        from checks import c17  # noqa: PLC0415
+        from mc import env  # noqa: PLC0415
+        import secsgem.common  # noqa: PLC0415
+        import secsgem.secsi  # noqa: PLC0415
+        import secsgem.secsi.message as sm  # noqa: PLC0415
+
+        hs = c17.secsi_settings(secsgem.common.DeviceType.HOST)
+        es = c17.secsi_settings(secsgem.common.DeviceType.EQUIPMENT)
+        host = secsgem.secsi.SecsIProtocol(hs)
+        eq = secsgem.secsi.SecsIProtocol(es)
+        obs = {"callers": {}, "cb": [], "wire_requests": [], "notes": [], "replied": []}
+        s.obs = obs
+        depth = [0]
+
+        def on_host_msg(data):
+            m = data["message"]
+            depth[0] += 1
+            obs["cb"].append(("enter", m.header.system, depth[0], m.header.stream, m.header.function, bytes(m.data)))
+            s.point("callback")
+            obs["cb"].append(("exit", m.header.system, depth[0]))
+            depth[0] -= 1
+
+        host.events.message_received += on_host_msg
+        pending = []
+
+        def reply_to(m):
+            try:
+                node, _ = e5.dec(bytes(m.data))
+                ident = node[1][0][1][0]
+            except Exception:  # noqa: BLE001
+                ident = 0
+            hdr = secsgem.secsi.SecsIHeader(m.header.system, 0, 1, 4, 0, True, False, True)
+            eq.send_message(sm.SecsIMessage(hdr, reply_body(ident)))
+            obs["replied"].append((m.header.system, "now", s.clock))
+
+        unsol = [0]
+
+        def on_eq_msg(data):
+            m = data["message"]
+            try:
+                node, _ = e5.dec(bytes(m.data))
+                ident = node[1][0][1][0]
+            except Exception:  # noqa: BLE001
+                ident = None
+            obs["wire_requests"].append({"system": m.header.system, "ident": ident, "t": s.clock, "step": s.steps})
+            if unsol[0] < nunsol:
+                k = unsol[0]
+                unsol[0] += 1
+                hdr = secsgem.secsi.SecsIHeader(0x60000 + k, 0, 9, 1, 0, True, False, True)
+                eq.send_message(sm.SecsIMessage(hdr, e5.enc(("B", bytes([k + 1] * 10)))))
+            c = s.choose(2, "env")
+            if c == 0:
+                reply_to(m)
+                for p in pending:
+                    reply_to(p)
+                pending.clear()
+            else:
+                pending.append(m)  # answered after the next request's reply (or at the end)
+
+        eq.events.message_received += on_eq_msg
+        host.enable()
+        eq.enable()
+        link = env.Link(hs.loop, es.loop)
+        link.connect()
+        s.settle()
+        sf = hs.streams_functions
+        done = []
+
+        def caller(i):
+            fn = sf.function(1, 3)([100 + i])
+            obs["callers"][i] = {"start": s.steps, "t_start": s.clock}
+            r = host.send_and_waitfor_response(fn)
+            c = obs["callers"][i]
+            c["end"] = s.steps
+            c["result"] = None if r is None else {"system": r.header.system, "stream": r.header.stream, "function": r.header.function, "body": bytes(r.data)}
+            done.append(i)
+
+        threads = [vrt.Thread(target=caller, args=(i,), name=f"caller-{i}") for i in range(ncallers)]
+        for t in threads:
+            t.start()
+        s.settle()
+        if pending:
+            # late but in time: flushed by a helper thread on the equipment side
+            def flush():
+                for p in list(pending):
+                    reply_to(p)
+                pending.clear()
+
+            ft = vrt.Thread(target=flush, name="eq-flush")
+            ft.start()
+            ft.join()
+        for t in threads:
+            t.join()
+        s.settle()
+        obs["threads_alive"] = []
+
+    return driver
+
+
 def oracle(obs, cfg, sched):
     """Violations of the statement visible in one execution."""
     out = []
@@ -220,7 +328,7 @@ def obs_key(obs):
 
 def run_one(devs, budgets, cfg=None, traced=True):
     cfg = cfg or {}
-    drv = driver_factory(cfg)
+    drv = driver_secsi_factory(cfg) if cfg.get("transport") == "secsi" else driver_factory(cfg)
     sched = vrt.run(drv, devs, budgets, rand=[cfg.get("counter", 0)], max_steps=60000, max_time=600.0, line_points=traced)
     obs = getattr(sched, "obs", {"notes": ["driver did not start"]})
     res = {"trace": sched.trace, "obs": obs_key(obs), "v": []}
@@ -241,11 +349,15 @@ CONFIGS_QUICK = [
     ({"callers": 2, "unsolicited": 2, "counter": 0}, {"sched": 2, "env": 1}),
     ({"callers": 2, "unsolicited": 2, "counter": 0xFFFFFFFE}, {"sched": 1, "env": 1}),
     ({"callers": 2, "unsolicited": 2, "counter": 5, "reconnect": True}, {"sched": 1, "env": 0}),
+    # SECS-I: reply orders only.  Schedules with delays make both ends transmit at once (line contention), which the
+    # statement of the line protocol (C17) excludes and which the library does not survive (see DESIGN.md 7.3).
+    ({"callers": 2, "unsolicited": 2, "counter": 9, "transport": "secsi"}, {"sched": 0, "env": 2}),
 ]
 CONFIGS_THOROUGH = [
     ({"callers": 2, "unsolicited": 2, "counter": 0}, {"sched": 3, "env": 2}),
     ({"callers": 3, "unsolicited": 2, "counter": 0xFFFFFFFD}, {"sched": 2, "env": 2}),
     ({"callers": 2, "unsolicited": 3, "counter": 5, "reconnect": True}, {"sched": 2, "env": 1}),
+    ({"callers": 3, "unsolicited": 2, "counter": 9, "transport": "secsi"}, {"sched": 0, "env": 3}),
 ]
 
 
